@@ -140,6 +140,15 @@ var builtins = []any{&codec.Crc16ChecksumService{}, &codec.Crc32ChecksumService{
 func setInitial(kind int) map[string]string {
 	codec.Clear()
 	m := map[string]string{}
+	if kind == 300 {
+		// a registry holding 64 short names ("A".."Z", "0".."9", "A0".."G3"): implementations that index by a small hash of the
+		// name put some of them into the same slot
+		for i, n := range manyNames {
+			codec.Registry(svc(n, 300+i))
+			m[n] = fmt.Sprint(300 + i)
+		}
+		return m
+	}
 	if kind >= 100 {
 		// a non-initial start state: {A} registered and then kind-100 sequential look-ups already served
 		// (counters, caches or snapshots that only switch on after some traffic are in their "warm" state)
@@ -252,7 +261,15 @@ func registryScenario(init int, progs [][]regOp) *scenario {
 		}
 		check := func(x *vrt.Exec) *finding {
 			// final look-ups by the main goroutine after all threads are done
-			for _, n := range []string{"A", "B", "CRC16"} {
+			finals := []string{"A", "B", "CRC16"}
+			for _, p := range progs {
+				for _, o := range p {
+					if o.Name != "" && o.Name != "A" && o.Name != "B" {
+						finals = append(finals, o.Name)
+					}
+				}
+			}
+			for _, n := range finals {
 				seq++
 				r := &opRec{Thread: 99, Op: regOp{"get", n, 0}, Call: 1<<40 + seq}
 				r.Result = applyReal(r.Op)
@@ -322,6 +339,27 @@ func c19Scenarios(thorough bool) []*scenario {
 				out = append(out, sc)
 			}
 		}
+	}
+	// many names: every pair of two different names out of 36, looked up concurrently and again afterwards
+	for i := 0; i < len(manyNames); i++ {
+		for j := i + 1; j < len(manyNames); j++ {
+			x, y := manyNames[i], manyNames[j]
+			sc := registryScenario(300, [][]regOp{{{"get", x, 0}}, {{"get", y, 0}}}) // + the final look-ups of x and y
+			sc.Name = "names " + sc.Name
+			out = append(out, sc)
+		}
+	}
+	// the special families first: they stay inside the execution budget even on trees with many more scheduling points
+	{
+		var special, rest []*scenario
+		for _, sc := range out {
+			if strings.HasPrefix(sc.Name, "names ") || strings.HasPrefix(sc.Name, "warm") {
+				special = append(special, sc)
+			} else {
+				rest = append(rest, sc)
+			}
+		}
+		out = append(special, rest...)
 	}
 	if thorough {
 		// three threads x exactly 2 ops over {Reg(A,1), Get(A), Rem(A), Clear}: every multiset of three programs
@@ -419,3 +457,20 @@ func seqRegViolation(seq []regOp, detail string) *ev.Violation {
 		Detail: "single-threaded sequence " + strings.Join(parts, " ") + ": " + detail,
 		Replay: map[string]any{"op": "registry-sequence", "sequence": parts}}
 }
+
+var manyNames = func() []string {
+	var out []string
+	for c := 'A'; c <= 'Z'; c++ {
+		out = append(out, string(c))
+	}
+	for c := '0'; c <= '9'; c++ {
+		out = append(out, string(c))
+	}
+	// two-character names as well (names of different lengths hash differently from single characters)
+	for _, a := range "ABCDEFG" {
+		for _, b := range "0123" {
+			out = append(out, string(a)+string(b))
+		}
+	}
+	return out
+}()
